@@ -7,7 +7,11 @@ Correspondence: node lists, observed strings, from_string results, compiled valu
 and renameArguments states are recomputed by coq/Corr/C12.v.
 """
 import functools
+import glob
 import itertools
+import json
+import math
+import os
 import operator
 import random as pyrandom
 import re
@@ -63,6 +67,26 @@ def _lt(a, b):
 
 def _eq(a, b):
     return a == b
+
+
+def _tdiv(a, b):
+    return a / b if b != 0 else a
+
+
+def _flo(a, b):
+    return a // b if b != 0 else a
+
+
+def _csign(a, b):
+    return math.copysign(a, b)
+
+
+def _kind(x):
+    return 2 if type(x) is bool else 1 if type(x) is int else 0
+
+
+def _rlen(x):
+    return len(repr(x))
 
 
 FUNCS = {
@@ -133,6 +157,15 @@ class Spec(object):
             self.pset.addPrimitive(f, len(in_types) if isinstance(in_types, (list, tuple)) else in_types, name=nm)
         self.funcs[nm] = f
         self.ops[nm] = op
+
+    def pyprim(self, f, in_types, ret, name):
+        """a Python-only function (not interpretable over Z); in_types is an arity for untyped sets"""
+        if self.typed:
+            self.pset.addPrimitive(f, in_types, ret, name=name)
+        else:
+            self.pset.addPrimitive(f, in_types, name=name)
+        self.funcs[name] = f
+        self.zeval = False
 
     def rawprim(self, f, in_types, ret, name, op=None):
         """typed sets only (also arity 0)"""
@@ -624,6 +657,13 @@ def main(run):
             run.oracle_violation("from_string(str(tree)) does not print identically / same node count / same arities", case,
                                  observed={"reprinted": s2, "len": len(t2)})
             return
+        for n1, n2 in zip(nodes, t2):
+            if (not isinstance(n1, gp.Primitive) and n1.conv_fct is repr and spec.arg_index(n1) is None
+                    and not isinstance(n2, (gp.Primitive, type)) and n2.conv_fct is repr):
+                if type(n1.value) is not type(n2.value) or repr(n1.value) != repr(n2.value):
+                    run.oracle_violation("a constant read back from the printed form is a different object (type/repr)", case,
+                                         observed={"original": repr(n1.value), "read": repr(n2.value)})
+                    return
         if adf is None:
             for tup in tuples[:2]:
                 a = guard(lambda: (gp.compile(t2, spec.pset)(*tup) if spec.nargs > 0 else gp.compile(t2, spec.pset)))
@@ -693,6 +733,148 @@ def main(run):
             return []      # operator preconditions (e.g. no primitive of a type) are C11's concern
         return [(t, which) for t in r[1] if len(t) <= 3000]
 
+    # ------------------------------------------------------------------ constants that coincide under ==
+    COINC_I = [0, 1, -2, 2, 2 ** 53]
+    COINC_F = [0.0, -0.0, 1.0, -2.0, 2.0, float(2 ** 53)]
+
+    def mk_coincide(typed_int=False, as_typed_object=False):
+        """values that are == and hash-equal yet distinct objects (1 / 1.0 / True, 0 / 0.0 / -0.0, 2**53 / float(2**53)),
+        none of them registered with addTerminal, with functions that tell them apart"""
+        if typed_int:
+            s = Spec(gp, "MAIN", [int, int], int, True)
+            s.pyprim(operator.add, [int, int], int, "add")
+            s.pyprim(operator.mul, [int, int], int, "mul")
+            s.pyprim(_kind, [int], int, "kind")
+            s.pyprim(_rlen, [int], int, "rlen")
+            s.eph("c_i", lambda: gp.random.choice([0, 1, 2, -2]), int, zok=False)
+            s.eph("c_b", lambda: gp.random.choice([True, False]), bool, zok=False)
+            s.label = "coincide_intbool"
+            return s
+        if as_typed_object:
+            s = Spec(gp, "MAIN", [object, object], object, True)
+            ar = lambda n: [object] * n  # noqa
+        else:
+            s = Spec(gp, "MAIN", [object, object], object, False)
+            ar = lambda n: n  # noqa
+        s.pyprim(operator.add, ar(2), object, "add")
+        s.pyprim(operator.mul, ar(2), object, "mul")
+        s.pyprim(_tdiv, ar(2), object, "tdiv")
+        s.pyprim(_flo, ar(2), object, "flo")
+        s.pyprim(_csign, ar(2), object, "csign")
+        s.pyprim(_kind, ar(1), object, "kind")
+        s.pyprim(_rlen, ar(1), object, "rlen")
+        kw = {"ret": object} if as_typed_object else {}
+        s.eph("c_i", lambda: gp.random.choice(COINC_I), zok=False, **kw)
+        s.eph("c_f", lambda: gp.random.choice(COINC_F), zok=False, **kw)
+        s.eph("c_b", lambda: gp.random.choice([True, False]), zok=False, **kw)
+        s.label = "coincide_typedobj" if as_typed_object else "coincide"
+        return s
+
+    COINC_ARGS = [(0, 0), (3, 4), (1, 1.0), (-0.0, 2), (0.0, -0.0), (True, 2.5), (2 ** 53, -2.0)]
+
+    def build_tree(spec, shape, ret=object):
+        """nested list -> PrimitiveTree: [name, child, ...] primitive, "ARGj" argument j (by position), other strings named
+        terminals, numbers/bools fresh Terminal objects that are NOT registered in the set (like ephemeral draws)"""
+        out = []
+
+        def rec(x):
+            if isinstance(x, list):
+                out.append(spec.pset.mapping[x[0]])
+                for c in x[1:]:
+                    rec(c)
+            elif isinstance(x, str) and x.startswith("ARG") and x[3:].isdigit():
+                out.append(spec.argterms[int(x[3:])])
+            elif isinstance(x, str):
+                out.append(spec.pset.mapping[x])
+            else:
+                out.append(gp.Terminal(x, False, ret))
+        rec(shape)
+        return gp.PrimitiveTree(out)
+
+    def fresh_names(spec, kargs):
+        cur = set(spec.pset.arguments)
+        vals = list(kargs.values())
+        return (len(set(vals)) == len(vals) and all(re.match(r"^[A-Za-z_][A-Za-z_0-9]*$", v) for v in vals)
+                and not any(v in spec.pset.mapping or v in spec.pset.context or v in cur or v in FUNCS for v in vals))
+
+    def run_sequence(spec, steps, tuples, label, trees=None):
+        """operation sequence on ONE primitive-set object; after every step every tree seen so far is compiled, printed,
+        read back and compared with the direct evaluation, and every function compiled earlier is called again"""
+        pool = list(trees or [])
+        kept = []          # (tree snapshot nodes, compiled callable, tuples) from earlier steps
+        counter = [0]
+        for step in steps:
+            kind = step[0]
+            counter[0] += 1
+            if kind == "compile":
+                t = build_tree(spec, step[1]) if not isinstance(step[1], gp.PrimitiveTree) else step[1]
+                pool.append(t)
+            elif kind == "gen":
+                t, _ = gen_tree(spec, 1, 3)
+                if t is not None:
+                    pool.append(t)
+            elif kind == "rename":
+                kargs = {spec.pset.arguments[int(k[3:])] if (k.startswith("ARG") and k[3:].isdigit() and int(k[3:]) < spec.nargs) else k: v
+                         for k, v in step[1].items()}
+                kargs = {k: v for k, v in kargs.items() if k in spec.pset.arguments}
+                if not fresh_names(spec, kargs):
+                    continue
+                spec.pset.renameArguments(**kargs)
+            elif kind == "const":
+                if str(step[1]) not in spec.pset.mapping:
+                    spec.const(step[1], *([object] if spec.typed else []))
+            elif kind == "named":
+                nm = "nm%d_%d" % (counter[0], len(spec.values))
+                spec.named(step[1], nm, *([object] if spec.typed else []))
+                pool.append(gp.PrimitiveTree([spec.pset.mapping["add"], spec.pset.mapping[nm], spec.argterms[0]])
+                            if spec.nargs else gp.PrimitiveTree([spec.pset.mapping[nm]]))
+            elif kind == "prim":
+                nm = "p%d_%d" % (counter[0], len(spec.funcs))
+                if spec.typed:
+                    spec.pset.addPrimitive(operator.sub, [object, object], object, name=nm)
+                else:
+                    spec.pset.addPrimitive(operator.sub, 2, name=nm)
+                spec.funcs[nm] = operator.sub
+                spec.ops[nm] = "OpSub"
+                leaf = spec.argterms[-1] if spec.nargs else gp.Terminal(4, False, object)
+                pool.append(gp.PrimitiveTree([spec.pset.mapping[nm], leaf, gp.Terminal(3, False, object)]))
+            elif kind == "eph":
+                nm = "q%d_%d" % (counter[0], len(spec.funcs))
+                spec.eph(nm, functools.partial(gp.random.randint, -3, 3), *([object] if spec.typed else []))
+                t, _ = gen_tree(spec, 1, 2)
+                if t is not None:
+                    pool.append(t)
+            # every function compiled during an earlier step still computes its own tree
+            for nodes_then, f, tups in kept:
+                for tup in tups:
+                    got = guard(lambda: f(*tup))
+                    exp = guard(interp, gp, nodes_then, spec, tup, None)
+                    if got[0] != exp[0] or (got[0] == "ok" and not same(got[1], exp[1])):
+                        run.oracle_violation("a function compiled earlier changed after later operations on the same primitive set",
+                                             {"set": spec.label, "sequence": label, "step": repr(step), "args": repr(tup),
+                                              "nodes": node_names(nodes_then)}, observed={"now": repr(got), "direct": repr(exp)})
+                        return
+            for t in pool[-6:]:
+                check_tree(spec, t, "seq:%s:%s" % (label, kind), tuples)
+            if spec.nargs > 0 and pool:
+                t = pool[-1]
+                r = guard(gp.compile, t, spec.pset)
+                if r[0] == "ok" and callable(r[1]):
+                    kept.append((list(t), r[1], tuples[:2]))
+                    kept[:] = kept[-8:]
+
+    def run_corpus():
+        for path in sorted(glob.glob(os.path.join(os.path.dirname(os.path.dirname(os.path.abspath(__file__))), "corpus", "C12_*.json"))):
+            entry = json.load(open(path))
+            tuples = [tuple(a) for a in entry.get("args", [[0, 0]])]
+            if entry["kind"] == "constants":
+                spec = mk_coincide(as_typed_object=entry.get("typed", False))
+                for shape in entry["trees"]:
+                    check_tree(spec, build_tree(spec, shape), "corpus:" + os.path.basename(path), tuples)
+            elif entry["kind"] == "sequence":
+                spec = mk_coincide(as_typed_object=entry.get("typed", False))
+                run_sequence(spec, [tuple(st) for st in entry["steps"]], tuples, "corpus:" + os.path.basename(path))
+
     # ------------------------------------------------------------------ plain sets
     specs = []
     for nargs in (0, 1, 2, 3):
@@ -713,6 +895,127 @@ def main(run):
     n_ops = run.scale(22, 170)
     ktup = run.scale(3, 5)
     try:
+        run_corpus()
+        # ------------------------------------------------------------------ coinciding constants: directed + generated
+        directed = [["add", 1, 1.0], ["add", 1.0, 1], ["csign", 0.0, -0.0], ["csign", -0.0, 0.0], ["tdiv", 2, ["tdiv", 2.0, "ARG1"]],
+                    ["flo", ["flo", 2.0, "ARG0"], ["flo", 2, "ARG0"]], ["add", True, ["add", 1, 1.0]], ["mul", ["kind", 1], ["kind", True]],
+                    ["add", ["rlen", 0], ["add", ["rlen", 0.0], ["rlen", -0.0]]], ["add", -2, -2.0], ["add", ["kind", False], ["kind", 0]],
+                    ["tdiv", 2 ** 53, ["add", float(2 ** 53), "ARG0"]], ["add", ["rlen", float(2 ** 53)], ["rlen", 2 ** 53]],
+                    ["csign", ["add", 1, 0.0], ["mul", -0.0, 1]], ["add", 0, ["add", False, ["add", 0.0, -0.0]]]]
+        for cs in (mk_coincide(), mk_coincide(as_typed_object=True)):
+            for shape in directed:
+                check_tree(cs, build_tree(cs, shape), "coincide-directed", COINC_ARGS)
+            for i in range(run.scale(40, 300)):
+                tree, src = gen_tree(cs, rng.randint(1, 2), rng.randint(2, 4))
+                if tree is not None and len(tree) <= 400:
+                    check_tree(cs, tree, "coincide-" + src, [rng.choice(COINC_ARGS) for _ in range(3)])
+        cib = mk_coincide(typed_int=True)
+        for shape in (["add", 1, True], ["add", True, 1], ["mul", ["kind", 1], ["kind", True]], ["add", ["rlen", False], ["rlen", 0]],
+                      ["add", ["kind", 0], ["add", False, ["kind", False]]]):
+            check_tree(cib, build_tree(cib, shape, ret=int), "coincide-directed", [(0, 0), (3, -4)])
+        for i in range(run.scale(30, 200)):
+            tree, src = gen_tree(cib, 1, rng.randint(2, 4))
+            if tree is not None and len(tree) <= 400:
+                check_tree(cib, tree, "coincide-" + src, grid(cib, 2))
+
+        # ------------------------------------------------------------------ operation sequences on one primitive-set object
+        step_kinds = ["gen", "rename", "rename", "const", "named", "prim", "eph", "gen"]
+        new_names = ["x", "y", "z", "u", "v", "w", "left", "right", "ARG0", "ARG1", "ARG2", "IN0", "IN1"]
+        for k in range(run.scale(14, 120)):
+            which = k % 4
+            if which == 0:
+                sq = mk_untyped(rng.randint(1, 3), small=True)
+            elif which == 1:
+                sq = mk_coincide()
+            elif which == 2:
+                sq = mk_coincide(as_typed_object=True)
+            else:
+                sq = mk_untyped(2)
+            # first step always compiles trees that mention every argument, so that anything cached per set is filled
+            first = [gp.PrimitiveTree([sq.pset.mapping["add"], a, gp.Terminal(1, False, object)]) for a in sq.argterms]
+            steps = []
+            for _ in range(rng.randint(3, 7)):
+                kd = rng.choice(step_kinds)
+                if kd == "rename":
+                    kargs = {}
+                    for j in range(sq.nargs):
+                        if rng.random() < 0.6:
+                            kargs["ARG%d" % j] = rng.choice(new_names)
+                    steps.append(("rename", kargs))
+                elif kd == "const":
+                    steps.append(("const", rng.choice([11, -13, 17, 2.5, -0.75])))
+                elif kd == "named":
+                    steps.append(("named", rng.choice([21, -8, 6])))
+                else:
+                    steps.append((kd,))
+            tups = COINC_ARGS[:sq.nargs and 3] if sq.label.startswith("coincide") else grid(sq, 2)
+            tups = [tuple(t[:sq.nargs]) + (0,) * max(0, sq.nargs - len(t)) for t in tups]
+            run_sequence(sq, [("gen",)] + steps, tups, "random%d" % k, trees=first)
+        # rename after a first compile, rename twice, rename back
+        for typed_obj in (False, True):
+            sq = mk_coincide(as_typed_object=typed_obj)
+            run_sequence(sq, [("compile", ["add", 1, "ARG1"]), ("rename", {"ARG0": "x", "ARG1": "y"}), ("compile", ["add", 1, "ARG1"]),
+                              ("rename", {"ARG0": "p", "ARG1": "q"}), ("compile", ["tdiv", "ARG0", "ARG1"]),
+                              ("rename", {"ARG0": "ARG0", "ARG1": "ARG1"}), ("compile", ["flo", "ARG1", "ARG0"]), ("const", 5),
+                              ("prim",), ("eph",), ("named", 9), ("rename", {"ARG1": "last"}), ("gen",)],
+                         [(0, 0), (3, 4.0), (-2, 1)], "rename-after-compile")
+
+        # compileADF with primitive sets that were already used, renamed and extended in between
+        for variant in range(run.scale(4, 16)):
+            fam = mk_adf_family(variant)
+            psets = [sp.pset for sp in fam]
+            main_spec = fam[0]
+            earlier = []
+            for phase in range(4):
+                ind = []
+                for sp in fam:
+                    t, _ = gen_tree(sp, 1, rng.choice([1, 2, 3]))
+                    ind.append(t)
+                if any(t is None for t in ind):
+                    continue
+                tuples = grid(main_spec, 2)
+                comp = guard(gp.compileADF, ind, psets)
+                adf_trees = {sp.name: (list(t), sp) for sp, t in zip(fam[1:], ind[1:])}
+                if comp[0] == "ok":
+                    f = comp[1]
+
+                    def call(tup, f=f, n=main_spec.nargs):
+                        return guard(lambda: f(*tup) if n > 0 else f)
+                    adf = dict(adf_trees)
+                    adf["__compiled__"] = call
+                    check_tree(main_spec, ind[0], "adf-seq-main", tuples, adf=adf)
+                    earlier.append((list(ind[0]), adf_trees, call, tuples))
+                else:
+                    zero_arg_fail = any(sp.nargs == 0 and guard(interp, gp, list(t), sp, (), adf_trees)[0] != "ok"
+                                        for sp, t in zip(fam[1:], ind[1:]))
+                    if not zero_arg_fail:
+                        run.oracle_violation("compileADF raised", {"set": main_spec.label, "source": "adf-seq", "trees": [str(t)[:200] for t in ind]},
+                                             observed=comp)
+                # functions of the earlier phases are unaffected by what happened to the sets since
+                for nodes_then, trees_then, call_then, tups_then in earlier:
+                    for tup in tups_then:
+                        got = call_then(tup)
+                        exp = guard(interp, gp, nodes_then, main_spec, tup, trees_then)
+                        if got[0] != exp[0] or (got[0] == "ok" and not same(got[1], exp[1])):
+                            run.oracle_violation("a function returned by compileADF changed after later operations on the same primitive sets",
+                                                 {"set": main_spec.label, "source": "adf-seq", "phase": phase, "args": repr(tup),
+                                                  "nodes": node_names(nodes_then)}, observed={"now": repr(got), "direct": repr(exp)})
+                # mutate the sets between phases
+                if phase == 0:
+                    kargs = {a: "m%d_%d" % (variant, j) for j, a in enumerate(main_spec.pset.arguments)}
+                    if fresh_names(main_spec, kargs):
+                        main_spec.pset.renameArguments(**kargs)
+                elif phase == 1:
+                    sub = fam[-1]
+                    if sub.nargs > 0:
+                        kargs = {sub.pset.arguments[0]: "s%d" % variant}
+                        if fresh_names(sub, kargs):
+                            sub.pset.renameArguments(**kargs)
+                    main_spec.const(40 + variant)
+                elif phase == 2:
+                    fam[1].named(77, "n77_%d" % variant)
+                    main_spec.prim("neg", 1)
+
         for spec in specs:
             pool = []
             # heights 0..6 are all hit for every set: first a sweep, then random
